@@ -32,7 +32,8 @@ static double K[NREACTIONS + 1], KH[NHEATPROCS + 1], KC[NCOOLPROCS + 1];
 static double OPQ_npar = 1, OPQ_mu = 1, OPQ_gamma = 1;
 #include "naunet_constants.h"
 // opaque helpers of the symbolic harness are inputs here as well
-double GetNumDens(double *y) { return OPQ_npar; }
+static double *OPQ_cell1 = 0;  // two-system replay (cusparse): the helper value of the second system is twice the first's
+double GetNumDens(double *y) { return (OPQ_cell1 && y == OPQ_cell1) ? 2.0 * OPQ_npar : OPQ_npar; }
 double GetMu(double *y) { return OPQ_mu; }
 double GetGamma(double *y) { return OPQ_gamma; }
 %(rates_override)s
@@ -150,6 +151,17 @@ int main() {
     for (int i = 0; i <= NEQUATIONS; i++) printf("rowptr %%d %%d\n", i, verif_rowptrs[i]);
     for (int i = 0; i < NNZ; i++) printf("csr %%d %%d %%.17g\n", i, verif_colvals[i], dat[i]);
     printf("oob %%ld\n", verif_oob);
+    {
+        // one thread, two systems with identical abundances and parameters; only GetNumDens tells them apart
+        static double y2[2 * NEQUATIONS + 1], ydot2[2 * NEQUATIONS + 1]; static NaunetData d2[2];
+        for (int i = 0; i < NEQUATIONS; i++) y2[i] = y2[NEQUATIONS + i] = y[i];
+        d2[0] = d; d2[1] = d;
+        for (int i = 0; i < 2 * NEQUATIONS; i++) ydot2[i] = NAN;
+        OPQ_cell1 = y2 + NEQUATIONS;
+        FexKernel(y2, ydot2, d2, 2);
+        OPQ_cell1 = 0;
+        for (int i = 0; i < NEQUATIONS; i++) printf("cell1 %%d %%.17g\n", i, ydot2[NEQUATIONS + i]);
+    }
     return 0;
 }
 """
@@ -254,6 +266,8 @@ class NativeEval:
                 out["k"][int(p[1])] = float(p[2])
             elif p[0] == "oob":
                 out["oob"] = int(p[1])
+            elif p[0] == "cell1":
+                out.setdefault("cell1", {})[int(p[1])] = float(p[2])
         return out
 
 
